@@ -11,7 +11,6 @@ import (
 	"sort"
 	"sync"
 	"testing"
-	"testing/synctest"
 	"time"
 
 	"github.com/gammazero/nexus/v3/wamp"
@@ -58,6 +57,9 @@ func genC08(t *rapid.T) *Case {
 			switch x := uni(t, 100, "k"); {
 			case x < 30:
 				op = Op{K: "pub", URI: pick(t, topics, "topic"), N: 1 + uni(t, 12, "burst")}
+				if pct(t, 35, "filtered") {
+					op.Mode = "filtered"
+				}
 			case x < 48:
 				op = Op{K: "sub", URI: pick(t, []string{"t.a", "t.b", "t", "t."}, "st"), Mode: ""}
 				switch op.URI {
@@ -70,6 +72,9 @@ func genC08(t *rapid.T) *Case {
 				op = Op{K: "unsub", N: uni(t, 3, "which")}
 			case x < 72:
 				op = Op{K: "reg", URI: pick(t, procs, "proc")}
+				if pct(t, 35, "disclose") {
+					op.Mode = "disclose"
+				}
 			case x < 80:
 				op = Op{K: "unreg", N: uni(t, 2, "whichreg")}
 			case x < 88:
@@ -107,12 +112,18 @@ func (a *c08Actor) snapshot() []wamp.Message {
 	return append([]wamp.Message(nil), a.log...)
 }
 
-func execC08(t *testing.T, c *Case, trace bool) Verdict {
+func execC08(t *testing.T, c *Case, trace bool) Verdict { return execActors(c, trace, false) }
+
+// execActors runs the concurrent actor workload. With realtime set it runs on
+// the real clock outside a bubble and only answers whether the router still
+// serves an uninvolved session and shuts down afterwards (realtime.go).
+func execActors(c *Case, trace, realtime bool) Verdict {
 	v := Verdict{Kind: "ok", Prop: "C08"}
 	fail := func(format string, a ...any) Verdict {
 		return Verdict{Kind: "violation", Prop: "C08", Reason: fmt.Sprintf(format, a...), Trace: v.Trace}
 	}
 	e := NewEngine(c)
+	e.Realtime = realtime
 	if err := e.Start(); err != nil {
 		return Verdict{Kind: "inconclusive", Reason: err.Error()}
 	}
@@ -122,7 +133,10 @@ func execC08(t *testing.T, c *Case, trace bool) Verdict {
 	for i, s := range e.Sess {
 		e.startSession(s)
 		e.queue(s, helloFor(&s.Cfg), -1)
-		synctest.Wait()
+		e.quiesce()
+		if realtime {
+			time.Sleep(50 * time.Millisecond)
+		}
 		msgs, _ := s.lk.drain()
 		ok := false
 		for _, m := range msgs {
@@ -207,7 +221,13 @@ func execC08(t *testing.T, c *Case, trace bool) Verdict {
 				case "pub":
 					for i := 0; i < op.N; i++ {
 						pubSeq[op.URI]++
-						e.queue(s, &wamp.Publish{Request: s.NextReq(), Options: wamp.Dict{"exclude_me": false}, Topic: wamp.URI(op.URI), Arguments: wamp.List{a.idx, op.URI, pubSeq[op.URI]}}, -1)
+						opts := wamp.Dict{"exclude_me": false}
+						if op.Mode == "filtered" {
+							// a receiver restriction: the broker evaluates it per subscriber
+							opts["exclude"] = wamp.List{e.Sess[(a.idx+1)%len(e.Sess)].SID}
+							opts["eligible_authrole"] = wamp.List{"trusted", "anonymous"}
+						}
+						e.queue(s, &wamp.Publish{Request: s.NextReq(), Options: opts, Topic: wamp.URI(op.URI), Arguments: wamp.List{a.idx, op.URI, pubSeq[op.URI]}}, -1)
 					}
 				case "sub":
 					req := s.NextReq()
@@ -249,7 +269,11 @@ func execC08(t *testing.T, c *Case, trace bool) Verdict {
 					a.mu.Lock()
 					a.pendingReg[req] = true
 					a.mu.Unlock()
-					e.queue(s, &wamp.Register{Request: req, Options: wamp.Dict{"invoke": "first"}, Procedure: wamp.URI(op.URI)}, -1)
+					ropts := wamp.Dict{"invoke": "first"}
+					if op.Mode == "disclose" {
+						ropts["disclose_caller"] = true
+					}
+					e.queue(s, &wamp.Register{Request: req, Options: ropts, Procedure: wamp.URI(op.URI)}, -1)
 				case "meta":
 					for i := 0; i < op.N; i++ {
 						req := s.NextReq()
@@ -271,6 +295,25 @@ func execC08(t *testing.T, c *Case, trace bool) Verdict {
 	// let everything drain: senders, router, readers
 	for i := 0; i < 50; i++ {
 		time.Sleep(10 * time.Millisecond)
+	}
+	if realtime {
+		time.Sleep(time.Second)
+		for i := range c.Realms {
+			if _, err := e.Probe(c.Realms[i].URI); err != nil && err != errProbeSkipped {
+				close(quit)
+				return Verdict{Kind: "hang", Prop: c.Prop, Reason: "confirmed on the real clock, outside the test bubble: " + err.Error()}
+			}
+		}
+		close(quit)
+		readers.Wait()
+		closed := make(chan struct{})
+		go func() { e.R.Close(); close(closed) }()
+		select {
+		case <-closed:
+			return Verdict{Kind: "ok", Prop: c.Prop}
+		case <-time.After(90 * time.Second):
+			return Verdict{Kind: "hang", Prop: c.Prop, Reason: "confirmed on the real clock, outside the test bubble: Router.Close did not return within 90 s"}
+		}
 	}
 	close(quit)
 	readers.Wait()
